@@ -2,6 +2,8 @@
 
 package syntax
 
+import "strings"
+
 // C15 — re-attach is refused iff the invocation's meaning changed.  One
 // harness per clause of the structural comparison: two instances of the
 // construct with the same shape and independent symbolic leaves, and an
@@ -521,8 +523,8 @@ var c15StructVariants = []struct {
 	same bool
 }{
 	{"struct ST(\n    int a,\n    bam f,\n)", true},
-	{"struct ST(\n    bam f,\n    int a,\n)", true},  // member order
-	{"struct ST(\n    int a,\n    sam f,\n)", true},  // file type name
+	{"struct ST(\n    bam f,\n    int a,\n)", true}, // member order
+	{"struct ST(\n    int a,\n    sam f,\n)", true}, // file type name
 	{"struct ST(\n    int a,\n    bam f,\n    int extra,\n)", false},
 	{"struct ST(\n    float[] a,\n    bam f,\n)", false},
 	{"struct ST(\n    int b,\n    bam f,\n)", false},
@@ -552,4 +554,55 @@ func H_C15_structDefs(v, arr int) {
 		verifAssert(!got, "C15: re-attach is refused when the definition of a struct type that is passed between calls changed (parameter sets and types)")
 	}
 	verifAssert(oldAst.EquivalentCall(newAst) == got, "C15: the comparison is symmetric")
+}
+
+// ---- C13: two outputs never share a path under outs/ ----
+
+var c13OutPairs = []struct {
+	first, second string
+	collide       bool
+}{
+	{`txt  summary`, `file details "the details" "summary.txt"`, true}, // explicit name = a sibling's derived name
+	{`file details "the details" "summary.txt"`, `txt  summary`, true}, // ... in the other order
+	{`txt  summary`, `file details "the details" "other.txt"`, false},
+	{`txt  a "first" "x.txt"`, `txt  b "second" "x.txt"`, true}, // two explicit names
+	{`file summary`, `txt  other "help" "summary"`, true},       // derived name without extension
+	{`int  summary`, `file details "the details" "summary.int"`, false},
+	{`txt  summary`, `txt  summary2`, false},
+	{`txt[] logs`, `file details "the details" "logs"`, true}, // a directory of files and a file
+}
+
+// H_C13_outNames(scope, pair): two file outputs of a struct (scope 0), of a
+// stage (scope 1) or of the top-level pipeline (scope 2).
+//
+//	C13: every output is materialised "at the path derived from its parameter
+//	     name, type and explicit output name": a program in which two outputs
+//	     of one scope derive the same path is rejected at compile time (the
+//	     post-processing step relies on it and would silently skip the second
+//	     file); distinct paths are accepted.
+func H_C13_outNames(scope, pair int) {
+	p := c13OutPairs[pair]
+	var src string
+	switch scope {
+	case 0:
+		src = "filetype txt;\n\nstruct OUTS(\n    " + p.first + ",\n    " + p.second + ",\n)\n\nstage S(\n    in  int  x,\n    out OUTS o,\n    src comp \"bin\",\n)\n"
+	case 1:
+		src = "filetype txt;\n\nstage S(\n    in  int x,\n    out " + p.first + ",\n    out " + p.second + ",\n    src comp \"bin\",\n)\n"
+	default:
+		ids := [2]string{}
+		for i, d := range []string{p.first, p.second} {
+			f := strings.Fields(d)
+			ids[i] = f[1]
+		}
+		src = "filetype txt;\n\nstage S(\n    in  int x,\n    out " + strings.Fields(p.first)[0] + " " + ids[0] + ",\n    out " + strings.Fields(p.second)[0] + " " + ids[1] + ",\n    src comp \"bin\",\n)\n\npipeline P(\n    in  int x,\n    out " + p.first + ",\n    out " + p.second + ",\n)\n{\n    call S(\n        x = self.x,\n    )\n\n    return (\n        " + ids[0] + " = S." + ids[0] + ",\n        " + ids[1] + " = S." + ids[1] + ",\n    )\n}\n\ncall P(\n    x = 1,\n)\n"
+	}
+	var parser Parser
+	_, _, _, err := parser.ParseSourceBytes([]byte(src), "/m/outs.mro", nil, false)
+	verifCover("output names compiled")
+	if p.collide {
+		verifCover("colliding output names")
+		verifAssert(err != nil, "C13: two outputs that derive the same path under outs/ are rejected at compile time")
+	} else {
+		verifAssert(err == nil, "C13: outputs with distinct paths are accepted")
+	}
 }
